@@ -214,10 +214,21 @@ class FakeMqttClient:
 def mqtt_patched() -> Iterator[None]:
     import ramses_tx.transport as tr
 
+    def topic_matches_sub(sub: str, topic: str) -> bool:  # as paho's: '+' one level, '#' the rest
+        a, b = sub.split("/"), topic.split("/")
+        for i, part in enumerate(a):
+            if part == "#":
+                return True
+            if i >= len(b) or (part != "+" and part != b[i]):
+                return False
+        return len(a) == len(b)
+
     class _FakeModule:
         Client = FakeMqttClient
         MQTTMessage = FakeMqttMessage
         MQTTMessageInfo = object
+
+    _FakeModule.topic_matches_sub = staticmethod(topic_matches_sub)  # type: ignore[attr-defined]
 
     with patch.object(tr, "mqtt", _FakeModule):
         yield
